@@ -1,9 +1,13 @@
 #!/bin/sh
-# tools/mut.sh <patch.diff | -R commit> <prop> [tier] : apply a change to /repo, run one check, undo the change
-p="$1"; prop="$2"; tier="${3:-quick}"
-cd /repo || exit 9
-if [ "$p" = "-R" ]; then shift; c="$1"; prop="$2"; tier="${3:-quick}"; git show "$c" -- crysp | git apply -R || exit 9
-else git apply "$p" || exit 9; fi
-find /repo -name __pycache__ -prune -exec rm -rf {} + 2>/dev/null
-/verif/bin/check "$prop" "$tier" --no-evidence 2>&1 | grep -E "^(VIOLATION|KNOWN|UNDECIDED|CHECKER|property=)" | cut -c1-260 | head -8
-git -C /repo checkout -- . ; find /repo -name __pycache__ -prune -exec rm -rf {} + 2>/dev/null
+# tools/mut.sh <patch.diff | -R commit> <prop> [tier] [jobs]
+# Evaluate one check against a modified copy of the repository: a scratch copy of /repo's HEAD is made under /tmp, the
+# change is applied THERE and the check runs with PYVC_REPO pointing at the copy (the engine, the native replay and the
+# specifications are the same).  /repo itself is not touched, so several of these can run side by side.
+if [ "$1" = "-R" ]; then rev=1; shift; fi
+p="$1"; prop="$2"; tier="${3:-quick}"; jobs="${4:-8}"
+d=$(mktemp -d /tmp/mutrepo.XXXXXX)
+git -C /repo archive HEAD | tar -x -C "$d" || exit 9
+if [ -n "$rev" ]; then (cd "$d" && git -C /repo show "$p" -- crysp | patch -s -R -p1) || { rm -rf "$d"; exit 9; }
+else (cd "$d" && patch -s -p1 < "$p") || { rm -rf "$d"; exit 9; }; fi
+PYVC_REPO="$d" PYVC_JOBS="$jobs" /verif/bin/check "$prop" "$tier" --no-evidence 2>&1 | grep -E "^(VIOLATION|KNOWN|UNDECIDED|CHECKER|property=)" | cut -c1-230 | head -6
+rm -rf "$d"
